@@ -1,0 +1,29 @@
+//go:build verif
+
+package proxy
+
+import (
+	"net/http"
+
+	"github.com/fabiolb/fabio/config"
+)
+
+// Verification hooks for property C08 (build tag verif): thin exported wrappers around the unexported
+// header helpers so that the correspondence harness in /verif can call the real code in-process.
+// No behaviour is changed.
+
+// VerifC08AddHeaders exposes addHeaders.
+func VerifC08AddHeaders(r *http.Request, cfg config.Proxy, stripPath string) error {
+	return addHeaders(r, cfg, stripPath)
+}
+
+// VerifC08AddResponseHeaders exposes addResponseHeaders.
+func VerifC08AddResponseHeaders(w http.ResponseWriter, r *http.Request, cfg config.Proxy) error {
+	return addResponseHeaders(w, r, cfg)
+}
+
+// VerifC08Scheme exposes scheme.
+func VerifC08Scheme(r *http.Request) string { return scheme(r) }
+
+// VerifC08LocalPort exposes localPort.
+func VerifC08LocalPort(r *http.Request) string { return localPort(r) }
